@@ -183,7 +183,7 @@ func runC07(c *Ctx) {
 		{algo: "gradient2", wrapper: "windowed", initial: 50, min: 1, max: 100, smoothing: 1.0, queue: "fixed2", longWin: 3},
 		{algo: "vegas", wrapper: "windowed", initial: 50, max: 100, smoothing: 1.0, probe: 30},
 	} {
-		c.runBFS(limModel(cfg, c07WindowedHooks(0)), mc.BFSOptions{MaxDepth: c.Pick(6, 7), DevBound: 1, MaxStates: 300000})
+		c.runBFS(limModel(cfg, c07WindowedHooks(0)), mc.BFSOptions{MaxDepth: 6, DevBound: c.Pick(1, 2), MaxStates: 2000000})
 	}
 	level := c.Pick(0, 1)
 	depth := c.Pick(6, 7)
